@@ -90,34 +90,51 @@ class Sol:
         return np.exp(self.al * x) * tot + self.be * self.om ** n * np.sin(self.om * x + self.ph + n * np.pi / 2)
 
 
-def coeff_callable(c):
+def coeff_callable(c, k=0, scale=(0.0, 1.0)):
+    """coefficient a_k of the stated ODE.  With scale = (c0, L) the problem is posed in s = (x - c0) / L: a_k(x) = L^k A_k(s), so that the
+    ODE sum_k a_k y^(k) = f for y(x) = Y(s) is the O(1) problem sum_k A_k Y^(k) = f whatever the units of x are."""
     kind, v = c
+    c0, L = scale
+    w = float(L) ** k
+    unscaled = (c0 == 0.0 and L == 1.0)
     if kind == "c":
-        return float(v)
+        return float(v) * w
     if kind == "i":
-        return int(v)
+        return int(v) if unscaled else float(v) * w
     if kind == "f":
-        c0, c1, c2 = v
-        return lambda x: c0 + c1 * x + c2 * np.sin(x)
+        a0, a1, a2 = v
+        return lambda x: w * (a0 + a1 * ((x - c0) / L) + a2 * np.sin((x - c0) / L))
     if kind == "lead":
-        s, q = v
-        return lambda x: s * (1.5 + 0.5 * np.cos(q * x))
+        sg, q = v
+        return lambda x: w * sg * (1.5 + 0.5 * np.cos(q * ((x - c0) / L)))
     if kind == "leadexp":
-        s, q = v
-        return lambda x: s * np.exp(q * x)
+        sg, q = v
+        return lambda x: w * sg * np.exp(q * ((x - c0) / L))
     raise KeyError(kind)
 
 
-def coeff_eval(c, x):
-    f = coeff_callable(c)
+def coeff_eval(c, x, k=0, scale=(0.0, 1.0)):
+    f = coeff_callable(c, k, scale)
     return f(x) if callable(f) else f + 0 * x
 
 
+class ScaledSol:
+    """y(x) = Y((x - c0) / L): derivatives w.r.t. x carry the factor L^-k"""
+
+    def __init__(self, base, c0, L):
+        self.base, self.c0, self.L = base, float(c0), float(L)
+
+    def d(self, n, x):
+        x = np.asarray(x, dtype=float)
+        return self.base.d(n, (x - self.c0) / self.L) / self.L ** n
+
+
 def build(spec):
-    """-> (coeffs as handed to the library, fx returning FRESH arrays, Sol)"""
-    sol = Sol(*spec["sol"])
+    """-> (coeffs as handed to the library, fx returning FRESH arrays, solution with exact derivatives w.r.t. x)"""
+    scale = tuple(spec.get("scale", (0.0, 1.0)))
+    sol = ScaledSol(Sol(*spec["sol"]), *scale)
     cs = spec["coeffs"]
-    coeffs = [coeff_callable(c) for c in cs]
+    coeffs = [coeff_callable(c, k, scale) for k, c in enumerate(cs)]
     if spec.get("as_array"):
         coeffs = np.array(coeffs, dtype=float)
 
@@ -125,8 +142,8 @@ def build(spec):
         x = np.asarray(x, dtype=float)
         out = np.zeros(x.shape)
         for k, c in enumerate(cs):
-            out = out + coeff_eval(c, x) * sol.d(k, x)
-        return out  # a new array on every call (the library subtracts in place from what fx returns: C20)
+            out = out + coeff_eval(c, x, k, scale) * sol.d(k, x)
+        return out  # a new array on every call (a library that accumulates in place would otherwise corrupt the caller's data: C20)
 
     return coeffs, fx, sol
 
@@ -214,7 +231,8 @@ def sample_sol(rng):
 
 
 def spec_desc(s):
-    return (f"{s['problem']} order={s['order']}{' (x_span as np.float64)' if s.get('np_span') else ''} coeffs={s['coeffs']}{' (ndarray)' if s.get('as_array') else ''} solution={s['sol']} "
+    sc = f" in the scaled variable s=(x-{s['scale'][0]})/{s['scale'][1]} (a_k = L^k A_k(s), y = Y(s))" if "scale" in s else ""
+    return (f"{s['problem']} order={s['order']}{' (x_span as np.float64)' if s.get('np_span') else ''}{sc} coeffs={s['coeffs']}{' (ndarray)' if s.get('as_array') else ''} solution={s['sol']} "
             f"transform={tf_desc(s['tf'])} x in {s['span']}" + (f" method={s['method']}" if s["problem"] == "ivp" else f" bd={s['bd']}"))
 
 
@@ -261,16 +279,38 @@ def relerr(got, exact):
     return float(np.max(np.abs(np.asarray(got, dtype=float) - exact)) / (1.0 + np.max(np.abs(exact))))
 
 
+def eval_modes(out, xs, K, scalar_ok=True, singles=None):
+    """the returned callable evaluated on the whole array, one point at a time (arrays of one point) and at bare scalars"""
+    modes = {"array": np.asarray(call_quiet(out, xs), dtype=float).reshape(K, -1)}
+    singles = xs if singles is None else singles
+    modes["one point at a time"] = np.hstack([np.asarray(call_quiet(out, np.array([x])), dtype=float).reshape(K, 1) for x in singles])
+    if scalar_ok:
+        modes["scalar points"] = np.hstack([np.asarray(call_quiet(out, float(x)), dtype=float).reshape(K, 1) for x in (xs[0], xs[-1])])
+    return modes
+
+
+SCALAR_EVAL_OK = True  # set by corpus_checks: evaluation at a bare scalar works (it did not before fix 9b1b78d)
+
+
 def run_ivp(spec, tfs):
-    """solve the stated IVP (through transform spec tfs or directly) -> (values (K, n) on the check points, check points)"""
+    """solve the stated IVP (through transform spec tfs or directly) -> ({evaluation mode: values (K, n)}, check points)"""
     coeffs, fx, sol = build(spec)
     K = spec["order"]
     x0, x1 = spec["span"]
     y0 = [float(sol.d(k, x0)) for k in range(K)]
     span = (np.float64(x0), np.float64(x1)) if spec.get("np_span") else (x0, x1)
-    out = call_quiet(GO.solve_ode_ivp, span, fx, coeffs, y0, make_transform(tfs), method=spec["method"], rtol=IVP_RTOL, atol=IVP_ATOL)
+    tf = make_transform(tfs)
+    atol = IVP_ATOL
+    if "scale" in spec:
+        # absolute tolerance per component of the state SciPy integrates (u, du/dr, ...), tied to the size of that component
+        pts = np.linspace(x0, x1, 7)
+        jets = np.array([[float(sol.d(k, x)) for k in range(K)] for x in pts])
+        if tf is not None:
+            jets = np.array([jet_u_from_y(tf, float(x), list(jets[i])) for i, x in enumerate(pts)])
+        atol = IVP_ATOL * np.maximum(np.max(np.abs(jets), axis=0), 1e-300)
+    out = call_quiet(GO.solve_ode_ivp, span, fx, coeffs, y0, tf, method=spec["method"], rtol=IVP_RTOL, atol=atol)
     xs = np.linspace(x0, x1, 9)
-    return np.asarray(call_quiet(out, xs), dtype=float).reshape(K, -1), xs
+    return eval_modes(out, xs, K, SCALAR_EVAL_OK, singles=None if ("scale" in spec or spec.get("directed")) else xs[::4]), xs
 
 
 def jet_u_from_y(tf, x, yj):
@@ -307,7 +347,7 @@ def run_bvp(spec, tfs):
     out = call_quiet(GO.solve_ode_bvp, x, fx, coeffs, bd, tf, tol=BVP_SOLVER_TOL, max_nodes=20000,
                      initial_guess_y=np.zeros((K, x.size)), no_derivatives=False)
     xs = np.linspace(xa, xb, 9)
-    return np.asarray(call_quiet(out, xs), dtype=float).reshape(K, -1), xs
+    return eval_modes(out, xs, K, SCALAR_EVAL_OK), xs
 
 
 def bvp_condition_number(spec):
@@ -319,7 +359,7 @@ def bvp_condition_number(spec):
     xa, xb = spec["span"]
 
     def rhs(x, Y):
-        a = [float(coeff_eval(c, np.array([x]))[0]) for c in cs]
+        a = [float(coeff_eval(c, np.array([x]), k, tuple(spec.get("scale", (0.0, 1.0))))[0]) for k, c in enumerate(cs)]
         return list(Y[1:]) + [-sum(a[k] * Y[k] for k in range(K)) / a[K]]
 
     cols = []
@@ -335,9 +375,12 @@ def bvp_condition_number(spec):
 
 
 def check_problem(spec, results):
-    """Run the stated problem directly and through the transform; append (kind, observed, expected, detail, spec, variant)."""
+    """Run the stated problem directly and through the transform; append (kind, observed, expected, detail, spec, variant).
+    EVERY returned component (y and each derivative w.r.t. the original variable) is compared with the manufactured solution, relative to
+    the size of that derivative (L^-k (1 + max|Y^(k)|) for a problem posed in s = (x - c0)/L), for every way of evaluating the callable."""
     K = spec["order"]
     _, _, sol = build(spec)
+    L = float(spec.get("scale", (0.0, 1.0))[1])
     runner = run_ivp if spec["problem"] == "ivp" else run_bvp
     tol = IVP_TOL if spec["problem"] == "ivp" else BVP_TOL
     vals = {}
@@ -345,22 +388,26 @@ def check_problem(spec, results):
         if variant == "transformed" and tfs is None:
             continue
         try:
-            v, xs = with_timeout(SOLVE_LIMIT_S, runner, spec, tfs)
+            modes, xs = with_timeout(SOLVE_LIMIT_S, runner, spec, tfs)
         except Exception as e:  # noqa: BLE001
             results.append(("raises", f"{type(e).__name__}: {str(e)[:120]}", "a solution", variant, spec))
             continue
+        v = modes["array"]
         vals[variant] = v
-        for k in range(K):
-            exact = sol.d(k, xs)
-            err = relerr(v[k], exact)
-            if not err <= tol:
-                results.append((f"derivative_{k}" if k else "solution", err, f"<= {tol}", variant, spec))
+        for mode, vm in modes.items():
+            label = variant if mode == "array" else f"{variant}, {mode}"
+            pts = xs if vm.shape[1] == len(xs) else (xs[::4] if vm.shape[1] == len(xs[::4]) and mode != "scalar points" else np.array([xs[0], xs[-1]]))
+            for k in range(K):
+                exact = sol.d(k, pts)
+                err = relerr(vm[k] * L ** k, exact * L ** k)
+                if not err <= tol:
+                    results.append((f"derivative_{k}" if k else "solution", err, f"<= {tol} relative to the size of this derivative", label, spec))
         # prescribed data
         if spec["problem"] == "ivp":
             for k in range(K):
-                c = float(sol.d(k, xs[0]))
-                if not abs(v[k][0] - c) <= COND_TOL * (1 + abs(c)):
-                    results.append(("initial_condition", float(v[k][0]), c, variant, spec))
+                c = float(sol.d(k, xs[0])) * L ** k
+                if not abs(v[k][0] * L ** k - c) <= COND_TOL * (1 + abs(c)):
+                    results.append(("initial_condition", float(v[k][0]), float(sol.d(k, xs[0])), variant, spec))
         else:
             for side, j in spec["bd"]:
                 if j == 0:
@@ -370,8 +417,8 @@ def check_problem(spec, results):
                         results.append(("boundary_condition", got, c, variant, spec))
     if len(vals) == 2:
         for k in range(K):
-            scale = 1.0 + float(np.max(np.abs(sol.d(k, np.linspace(*spec["span"], 9)))))
-            dis = float(np.max(np.abs(vals["direct"][k] - vals["transformed"][k])) / scale)
+            scale = 1.0 + float(np.max(np.abs(sol.d(k, np.linspace(*spec["span"], 9)) * L ** k)))
+            dis = float(np.max(np.abs(vals["direct"][k] - vals["transformed"][k])) * L ** k / scale)
             if not dis <= AGREE_FACTOR * tol:
                 results.append(("transformed_vs_direct", dis, f"<= {AGREE_FACTOR * tol}", f"component {k}", spec))
 
@@ -389,7 +436,8 @@ def corpus_checks(ctx: Ctx):
     for method in ("Radau", "BDF"):
         spec = dict(CORPUS_IMPLICIT, method=method)
         try:
-            v, xs = with_timeout(SOLVE_LIMIT_S, run_ivp, spec, None)
+            modes, xs = with_timeout(SOLVE_LIMIT_S, run_ivp, spec, None)
+            v = modes["array"]
             _, _, sol = build(spec)
             ok = relerr(v[0], sol.d(0, xs)) <= 1e-4
             obs = "inaccurate"
@@ -427,6 +475,7 @@ def corpus_checks(ctx: Ctx):
         except Exception as e:  # noqa: BLE001
             obs.append(type(e).__name__)
     ctx.case(("corpus", "scalar"))
+    globals()["SCALAR_EVAL_OK"] = obs == ["ok", "ok"]
     if obs != ["ok", "ok"]:
         ctx.fail("sweep_scalar_point", "solve_ode_ivp(..., BeckeRTransform(0.125, 2.0))(0.25)", obs,
                  "the callable returned for a transformed problem cannot be evaluated at a scalar point like the one returned without a transform "
@@ -443,7 +492,8 @@ def corpus_checks(ctx: Ctx):
             spec = dict(CORPUS_SCALAR, tf=tfs, span=(0.5, 1.5), np_span=np_span)
             ctx.case(("corpus", "float_span", cname, np_span))
             try:
-                v, xs = with_timeout(SOLVE_LIMIT_S, run_ivp, spec, tfs)
+                modes, xs = with_timeout(SOLVE_LIMIT_S, run_ivp, spec, tfs)
+                v = modes["array"]
                 _, _, sol = build(spec)
                 ok, obs = relerr(v[0], sol.d(0, xs)) <= IVP_TOL, "inaccurate"
             except Exception as e:  # noqa: BLE001
@@ -483,6 +533,30 @@ DIRECTED_COEFFS = {1: [("f", (0.5, -0.25, 0.5)), ("lead", (1.0, 1.0))],
                    3: [("c", 0.5), ("f", (0.25, 0.5, -0.25)), ("c", -0.75), ("leadexp", (1.0, -0.25))]}
 
 
+SCALED_DIRECTED = [
+    # (transform, x_span, (c0, L), order, method): domains and parameters far from O(1); the ODE is O(1) in s = (x - c0)/L
+    (("Inverse", ("BeckeRTransform", (("rmin", 0.0), ("R", 1e4)))), (1e4, 5e4), (1e4, 4e4), 3, "DOP853"),
+    (("Inverse", ("BeckeRTransform", (("rmin", 0.0), ("R", 1e4)))), (1e2, 5e4), (1e2, 5e4), 3, "RK45"),
+    (("Inverse", ("BeckeRTransform", (("rmin", 0.0), ("R", 1e4)))), (5e4, 2e4), (2e4, 3e4), 2, "LSODA"),
+    (("Inverse", ("BeckeRTransform", (("rmin", 0.0), ("R", 1e-4)))), (1e-4, 1e-3), (1e-4, 9e-4), 3, "DOP853"),
+    (("Inverse", ("LinearFiniteRTransform", (("rmin", 0.0), ("rmax", 1e4)))), (1e3, 5e3), (1e3, 4e3), 3, "RK45"),
+    (("BeckeRTransform", (("rmin", 0.0), ("R", 1e4))), (-0.5, 0.25), (0.0, 1.0), 3, "DOP853"),
+    (("BeckeRTransform", (("rmin", 0.0), ("R", 1e-4))), (-0.5, 0.25), (0.0, 1.0), 3, "RK45"),
+    (("KnowlesRTransform", (("rmin", 0.0), ("R", 1e4), ("k", 2))), (-0.5, 0.25), (0.0, 1.0), 3, "DOP853"),
+    (("KnowlesRTransform", (("rmin", 0.0), ("R", 1e-4), ("k", 3))), (0.25, -0.5), (0.0, 1.0), 2, "LSODA"),
+    (("LinearFiniteRTransform", (("rmin", 0.0), ("rmax", 1e-4))), (-0.5, 0.5), (0.0, 1.0), 3, "RK45"),
+    (("LinearFiniteRTransform", (("rmin", -1e4), ("rmax", 1e4))), (-0.5, 0.5), (0.0, 1.0), 3, "DOP853"),
+    (("ExpRTransform", (("rmin", 1e-4), ("rmax", 10.0), ("b", 8.0))), (0.5, 1.5), (0.0, 1.0), 3, "DOP853"),
+    (("PowerRTransform", (("rmin", 1e-4), ("rmax", 10.0), ("b", 8.0))), (0.5, 1.5), (0.0, 1.0), 2, "RK45"),
+    (("HandyRTransform", (("rmin", 0.0), ("R", 1e4), ("m", 2))), (-0.5, 0.25), (0.0, 1.0), 3, "RK45"),
+]
+
+
+def scaled_directed_specs():
+    return [{"problem": "ivp", "order": k, "coeffs": DIRECTED_COEFFS[k], "sol": DIRECTED_SOL, "tf": tfs, "span": span, "method": m, "scale": sc}
+            for tfs, span, sc, k, m in SCALED_DIRECTED]
+
+
 def directed_specs():
     """fixed problems solved in every tier and under every seed: first-order IVPs through each kind of map forwards and backwards
     (no initial derivatives to convert: only the span, the right-hand side and the composition with g are exercised), and second / third
@@ -490,7 +564,7 @@ def directed_specs():
     out = []
     for i, (tfs, (a, b)) in enumerate(DIRECTED_TF):
         for span, method in (((a, b), "DOP853"), ((b, a), "LSODA")):
-            out.append({"problem": "ivp", "order": 1, "coeffs": DIRECTED_COEFFS[1], "sol": DIRECTED_SOL, "tf": tfs, "span": span, "method": method})
+            out.append({"problem": "ivp", "order": 1, "coeffs": DIRECTED_COEFFS[1], "sol": DIRECTED_SOL, "tf": tfs, "span": span, "method": method, "directed": True})
         if tfs[0] != "LinearFiniteRTransform":
             k = 3 if i % 2 else 2
             out.append({"problem": "ivp", "order": k, "coeffs": DIRECTED_COEFFS[k], "sol": DIRECTED_SOL, "tf": tfs, "span": (a, b), "method": "RK45"})
@@ -499,11 +573,46 @@ def directed_specs():
     return out
 
 
+def sample_scaled(rng):
+    """(transform spec, x_span, (c0, L)): extreme but admissible scalings - transform parameters 2^-13 .. 2^13 (1e-4 .. 1e4) and
+    original-variable domains of the matching size"""
+    kind = rng.choice(["inv_becke", "inv_becke", "inv_knowles", "becke", "knowles", "handy", "linfinite", "inv_linfinite", "exp", "power", "none"])
+    big = 2.0 ** rng.randint(-13, 13)
+    if kind in ("inv_becke", "inv_knowles"):
+        a = dq(rng, 0.25, 2) * big
+        b = a * dq(rng, 1.5, 5)
+        if kind == "inv_knowles":  # the inverse of the logarithmic map saturates exponentially: stay within a few R
+            a = dq(rng, 0.25, 1) * big
+            b = a * dq(rng, 1.5, 2.5)
+        inner = ("BeckeRTransform", (("rmin", 0.0), ("R", big))) if kind == "inv_becke" else ("KnowlesRTransform", (("rmin", 0.0), ("R", big), ("k", rng.choice([1, 2, 3]))))
+        return ("Inverse", inner), (a, b), (a, b - a)
+    if kind == "inv_linfinite":
+        a, b = dq(rng, 0.125, 0.375) * big, dq(rng, 0.5, 0.875) * big
+        return ("Inverse", ("LinearFiniteRTransform", (("rmin", 0.0), ("rmax", big)))), (a, b), (a, b - a)
+    if kind == "none":
+        a = dq(rng, -2, 2) * big
+        return None, (a, a + big), (a, big)
+    a = dq(rng, -0.7, 0.1)
+    iv = (a, min(0.75, a + dq(rng, 0.4, 1.0)))
+    if kind == "becke":
+        return ("BeckeRTransform", (("rmin", 0.0), ("R", big))), iv, (0.0, 1.0)
+    if kind == "knowles":
+        return ("KnowlesRTransform", (("rmin", 0.0), ("R", big), ("k", rng.choice([1, 2, 3])))), iv, (0.0, 1.0)
+    if kind == "handy":
+        return ("HandyRTransform", (("rmin", 0.0), ("R", big), ("m", rng.choice([1, 2, 3])))), iv, (0.0, 1.0)
+    if kind == "linfinite":
+        return ("LinearFiniteRTransform", (("rmin", 0.0), ("rmax", big))), iv, (0.0, 1.0)
+    a = dq(rng, 0.25, 2.0)
+    tiny = 2.0 ** -rng.randint(4, 13)
+    cname = "ExpRTransform" if kind == "exp" else "PowerRTransform"
+    return (cname, (("rmin", tiny), ("rmax", 10.0), ("b", 8.0))), (a, a + dq(rng, 0.4, 1.2)), (0.0, 1.0)
+
+
 def sweep(ctx: Ctx, flags: dict):
     implicit_ok, float_span_ok, li_matrix_ok = flags["implicit_ok"], flags["float_span_ok"], flags["li_matrix_ok"]
     rng = ctx.rng
     results = []
-    plan = directed_specs()
+    plan = directed_specs() + scaled_directed_specs()
     n_ivp = 36 if ctx.quick else 1200
     n_bvp = 12 if ctx.quick else 300
     classes = list(TF_CLASSES)
@@ -528,6 +637,13 @@ def sweep(ctx: Ctx, flags: dict):
         if all(c[0] in ("c", "i") for c in spec["coeffs"]) and rng.random() < 0.4:
             spec["as_array"] = True
         plan.append(spec)
+    for it in range(8 if ctx.quick else 200):
+        order = 1 + it % 3
+        tfs, iv, sc = sample_scaled(rng)
+        span = iv if rng.random() < 0.75 else (iv[1], iv[0])
+        plan.append({"problem": "ivp", "order": order, "coeffs": sample_coeffs(rng, order, rng.choice(["const", "var", "mixed"])), "sol": sample_sol(rng),
+                     "tf": tfs, "span": tuple(float(v) for v in span), "method": rng.choice(methods), "scale": tuple(float(v) for v in sc)})
+        ctx.count("scaled_problem")
     tries = 0
     nb = 0
     while nb < n_bvp and tries < 6 * n_bvp:
@@ -897,6 +1013,91 @@ def wiring_cases(ctx: Ctx, sigs):
     return cases, meta
 
 
+WIRING_SCALED = [
+    # (transform, (x0, x1), evaluation point sets): parameters and domains far from O(1); in the first rows |g''| < 1e-8 although g is not affine
+    (("Inverse", ("BeckeRTransform", (("rmin", 0.0), ("R", 1e4)))), (1e4, 5e4), [[1e4, 2.5e4, 5e4], [150.0, 3e4, 5e4], [5e4], [1e4]]),
+    (("Inverse", ("BeckeRTransform", (("rmin", 0.0), ("R", 1e-4)))), (1e-4, 1e-3), [[1e-4, 5e-4, 1e-3], [1e-3]]),
+    (("Inverse", ("KnowlesRTransform", (("rmin", 0.0), ("R", 4096.0), ("k", 2)))), (2048.0, 8192.0), [[2048.0, 8192.0], [4096.0]]),
+    (("BeckeRTransform", (("rmin", 0.0), ("R", 1e4))), (-0.5, 0.25), [[-0.5, 0.0, 0.25], [0.125]]),
+    (("BeckeRTransform", (("rmin", 0.0), ("R", 1e-4))), (-0.5, 0.25), [[-0.5, 0.0, 0.25], [0.125]]),
+    (("KnowlesRTransform", (("rmin", 0.0), ("R", 1e-4), ("k", 3))), (-0.5, 0.25), [[-0.5, 0.25], [0.0]]),
+    (("LinearFiniteRTransform", (("rmin", 0.0), ("rmax", 1e4))), (-0.5, 0.5), [[-0.5, 0.5], [0.25]]),
+    (("ExpRTransform", (("rmin", 1e-4), ("rmax", 10.0), ("b", 8.0))), (0.5, 1.5), [[0.5, 1.0, 1.5], [1.25]]),
+]
+
+
+def wiring_scaled_cases(ctx: Ctx, sigs):
+    """the hand model of the initial data and of the returned callable against the implementation (SciPy stubbed) for extreme scalings,
+    for arrays, mixed-magnitude arrays, arrays of one point and bare scalars, with a tolerance RELATIVE to every returned component"""
+    rng = ctx.rng
+    cases, meta = [], []
+    rel = Fraction(1, 10 ** 8)
+
+    def add(goal_term, y, key, text):
+        y = float(y)
+        if not math.isfinite(y):
+            tie_fail(ctx, "corr_wiring", key, str(y), text + " (the implementation's value is not finite)")
+            return
+        cases.append((f"Rabs ({goal_term} - {r_lit(y)}) <= {r_lit(rel * abs(Fraction(y)) + Fraction(1, 10 ** 300))}", "c15_eval"))
+        meta.append(("corr_wiring", key, y, text, None))
+
+    real_ivp = GO.solve_ivp
+    try:
+        for tfs, (x0, x1), point_sets in (WIRING_SCALED if not ctx.quick else WIRING_SCALED[:5]):
+            tf = make_transform(tfs)
+            g = tf_coq(sigs, tfs)
+            gs = f"{g[0]} {g[2]} {g[3]} {g[4]}"
+            L = abs(x1 - x0)
+            for K in ((3, 2) if (not ctx.quick or tfs is WIRING_SCALED[0][0]) else (3,)):
+                Sc = [[dq(rng, 0.5, 2), dq(rng, 0.25, 1), dq(rng, 0.125, 0.5)] for _ in range(K)]
+                S = " ".join(poly_coq(c) for c in Sc)
+                y0 = [dq(rng, 0.5, 2) / L ** k for k in range(K)]
+                coeffs = [dq(rng, 0.5, 2) * L ** k for k in range(K + 1)]
+                rec = {}
+
+                def fake_ivp(fun, t_span, y0=None, **kw):
+                    rec.update(t_span=np.array(t_span, dtype=float), y0=np.array(y0, dtype=float))
+                    return StubResult(stub_solution(Sc))
+
+                GO.solve_ivp = fake_ivp
+                out = call_quiet(GO.solve_ode_ivp, (x0, x1), lambda x: 1.0 + 0 * np.asarray(x, dtype=float), coeffs, list(y0), tf)
+                GO.solve_ivp = real_ivp
+                desc = f"scaled:K={K}:{tf_desc(tfs)}:span=({x0},{x1})"
+                gd = f"({g[2]} {r_lit(x0)}) ({g[3]} {r_lit(x0)}) ({g[4]} {r_lit(x0)})"
+                w = rec["y0"]
+                if K == 2:
+                    add(f"mv1 {gd} {r_lit(w[1])}", y0[1], f"ivp-init:{desc}", f"initial derivative handed to solve_ivp ({w[1]}) is not M(x0)^-1 y0[1:] (y0 = {y0})")
+                else:
+                    for e in (0, 1):
+                        add(f"{'fst' if e == 0 else 'snd'} (mv2 {gd} {r_lit(w[1])} {r_lit(w[2])})", y0[1 + e], f"ivp-init:{desc}:{e}",
+                            f"initial derivatives handed to solve_ivp ({w[1:].tolist()}) are not M(x0)^-1 y0[1:] (y0 = {y0})")
+
+                def terms(xq):
+                    if K == 2:
+                        o = f"out_T_2 {gs} {S} {r_lit(xq)}"
+                        return [f"fst ({o})", f"snd ({o})"]
+                    o = f"out_T_3 {gs} {S} {r_lit(xq)}"
+                    return [f"fst (fst ({o}))", f"snd (fst ({o}))", f"snd ({o})"]
+
+                for pts in point_sets:
+                    xs = np.array(pts, dtype=float)
+                    how = [("array", xs)] + ([("scalar", float(pts[0]))] if (len(pts) == 1 and SCALAR_EVAL_OK) else [])
+                    for hname, arg in how:
+                        try:
+                            vals = np.asarray(call_quiet(out, arg), dtype=float).reshape(K, -1)
+                        except Exception as e:  # noqa: BLE001
+                            tie_fail(ctx, "corr_wiring", f"out:{desc}:{pts}:{hname}", type(e).__name__, f"returned callable raises {type(e).__name__} at {pts} ({hname})")
+                            continue
+                        for q, xq in enumerate(pts):
+                            for e, t in enumerate(terms(xq)):
+                                add(t, vals[e, q], f"out:{desc}:{hname} {pts}:x={xq}:{e}",
+                                    f"returned callable evaluated at {pts} ({hname}), point x={xq}, component {e}: {vals[e, q]} is not the model's (S o g, M(x) . S'(g x))")
+                        ctx.case(("wiring-out-scaled", desc, tuple(pts), hname))
+    finally:
+        GO.solve_ivp = real_ivp
+    return cases, meta
+
+
 def run_coq_cases(ctx: Ctx, name, cases, meta):
     if not cases:
         return
@@ -983,7 +1184,7 @@ def run(ctx: Ctx):
 
         def rank(k):
             rec = first[k]
-            through_tf = rec[2] != "direct"  # the transformed solve, or the transformed-vs-direct comparison
+            through_tf = not rec[2].startswith("direct")  # the transformed solve, or the transformed-vs-direct comparison
             relevant = (fam == "direct" and not through_tf) or (fam != "direct" and through_tf and RELEVANT[fam](rec[3], k[0]))
             return (0 if relevant else 1, 0 if rec[3]["order"] == want_order else 1, keys.index(k))
         ctx.broken_tie(name, f"theorem {name} ({ob['file']}) no longer checks on the definitions regenerated from src/grid/ode.py", witness(sorted(keys, key=rank)))
@@ -995,8 +1196,9 @@ def run(ctx: Ctx):
     if sigs is not None and status.get("C15_gen.v") and status.get("C03_gen.v") and status.get("C15_model.v") and status.get("C15_proofs_fdb.v"):
         hcases, hmeta = helper_cases(ctx, sigs)
         wcases, wmeta = wiring_cases(ctx, sigs)
-        run_coq_cases(ctx, "C15_corr", ocases + hcases + wcases, ometa + hmeta + wmeta)
-        ctx.cov["correspondence_goals"] = {"oracle": len(ocases), "helpers": len(hcases), "wiring": len(wcases)}
+        scases, smeta = wiring_scaled_cases(ctx, sigs)
+        run_coq_cases(ctx, "C15_corr", ocases + hcases + wcases + scases, ometa + hmeta + wmeta + smeta)
+        ctx.cov["correspondence_goals"] = {"oracle": len(ocases), "helpers": len(hcases), "wiring": len(wcases), "wiring_extreme_scalings": len(scases)}
     # model / implementation disagreements found by the correspondence: one violation per correspondence obligation, with the
     # first failing problem of the sweep as replay; without one, every disagreement is reported (no failing input found)
     groups = {}
@@ -1059,6 +1261,8 @@ def replay(rp):
     spec["coeffs"] = [(c[0], tuple(c[1]) if isinstance(c[1], list) else c[1]) for c in spec["coeffs"]]
     spec["sol"] = tuple(spec["sol"])
     spec["span"] = tuple(spec["span"])
+    if "scale" in spec:
+        spec["scale"] = tuple(spec["scale"])
 
     def fix_tf(t):
         if t is None:
